@@ -1005,7 +1005,10 @@ impl<'a> Ctx<'a> {
                     let named = names.contains(&abs(&f.file)) || f.alt.iter().any(|a| names.contains(&abs(a)));
                     if !named {
                         // other faults of the same stage whose diagnostic is (or may be: `alt`) located in another file
-                        let others_same_stage = group.iter().filter(|g| g.stage == f.stage && !std::ptr::eq::<Fault>(**g, *f) && (g.file != f.file || !g.alt.is_empty())).count();
+                        // (for import faults: only those in a file that `f.file` imports, directly or transitively — files that
+                        // do not import one another are resolved independently and each one's fault must be named)
+                        let others_same_stage = group.iter().filter(|g| g.stage == f.stage && !std::ptr::eq::<Fault>(**g, *f)
+                            && ((g.file != f.file && (f.stage != "op-import" || imports_transitively(&case.op_files, &f.file, &g.file))) || !g.alt.is_empty())).count();
                         let sig = if f.stage != first_stage {
                             format!("unnamed:{}:masked-by:{}", f.stage, first_stage)
                         } else if (f.stage == "schema-ext" || f.stage == "op-import") && others_same_stage > 0 {
@@ -1021,6 +1024,51 @@ impl<'a> Ctx<'a> {
             }
         }
     }
+}
+
+/// does operation file `from` reach `to` through `#import … from "<relative path>"` lines?
+fn imports_transitively(op_files: &[(String, String)], from: &str, to: &str) -> bool {
+    fn norm(p: &str) -> String {
+        let mut out: Vec<&str> = vec![];
+        for c in p.split('/') {
+            match c {
+                "" | "." => {}
+                ".." => {
+                    out.pop();
+                }
+                c => out.push(c),
+            }
+        }
+        out.join("/")
+    }
+    let targets = |file: &str| -> Vec<String> {
+        let dir = file.rsplit_once('/').map_or("", |(d, _)| d);
+        let text = op_files.iter().find(|(p, _)| norm(p) == norm(file)).map_or("", |(_, t)| t.as_str());
+        text.lines()
+            .filter_map(|l| l.find("#import").map(|i| &l[i..]))
+            .filter_map(|l| {
+                let q = l.find(|c| c == '"' || c == '\'')?;
+                let quote = l[q..].chars().next()?;
+                let rest = &l[q + 1..];
+                let e = rest.find(quote)?;
+                Some(norm(&format!("{dir}/{}", &rest[..e])))
+            })
+            .collect()
+    };
+    let mut seen: Vec<String> = vec![norm(from)];
+    let mut todo = vec![norm(from)];
+    while let Some(f) = todo.pop() {
+        for t in targets(&f) {
+            if t == norm(to) {
+                return true;
+            }
+            if !seen.contains(&t) {
+                seen.push(t.clone());
+                todo.push(t);
+            }
+        }
+    }
+    false
 }
 
 // ---------------------------------------------------------------------------------------------
@@ -1411,6 +1459,11 @@ fn corpus() -> Vec<Case> {
         // a file importing from a file whose own import fails is not named (open finding)
         base(vec![s0, s1], vec![("ops/o0.graphql", "#import A from \"./o1.graphql\"\nquery Q0 { me { id } }\n"), ("ops/o1.graphql", "#import B from \"./o2.graphql\"\nquery Q1 { me { id } }\n"), ("ops/o2.graphql", "query Q2 { me { id } }\n")], vec!["check"],
             vec![("missing-fragment", "ops/o0.graphql", "op-import"), ("missing-fragment", "ops/o1.graphql", "op-import")]),
+        // two files that do not import one another, each with its own failing #import: both are named
+        base(vec![s0, s1], vec![("ops/o0.graphql", "#import A from \"./missing0.graphql\"\nquery Q0 { me { id } }\n"), ("ops/o1.graphql", "query Q1 { me { id } }\n"), ("ops/o2.graphql", "#import B from \"./o1.graphql\"\nquery Q2 { me { id } }\n")], vec!["check"],
+            vec![("dangling-import", "ops/o0.graphql", "op-import"), ("missing-fragment", "ops/o2.graphql", "op-import")]),
+        base(vec![s0, s1], vec![("ops/o0.graphql", "query Q0 { me { id } }\n"), ("ops/o1.graphql", "#import B from \"./o0.graphql\"\nquery Q1 { me { id } }\n"), ("ops/o2.graphql", "#import C from \"./o0.graphql\"\nquery Q2 { me { id } }\n"), ("ops/o3.graphql", "#import D from \"./nowhere.graphql\"\nquery Q3 { me { id } }\n")], vec!["check", "generate"],
+            vec![("missing-fragment", "ops/o1.graphql", "op-import"), ("missing-fragment", "ops/o2.graphql", "op-import"), ("dangling-import", "ops/o3.graphql", "op-import")]),
         // schema extension stage reports one error only (open findings)
         base(vec![("schema/s0.graphql", "type Query { me: User! }\nextend type NopeA { x: Int }\n"), ("schema/s1.graphql", "type User { id: ID! name: String }\nextend type NopeB { x: Int }\n"), ("schema/s2.graphql", "type Extra { f: NopeType }\n")], vec![o0], vec!["check"],
             vec![("orphan-extension", "schema/s0.graphql", "schema-ext"), ("orphan-extension", "schema/s1.graphql", "schema-ext"), ("unknown-type", "schema/s2.graphql", "schema-check")]),
